@@ -23,7 +23,7 @@ MISSING_C = "<missing>"
 
 UNIVERSE = {
     "lits": ["a", "b"], "grids": [["list", [1]], ["list", []]],
-    "nums": [0, 1, 2], "words": ["", "a", "b"], "tags": [0, 1, 2], "labels": ["", "a", "b"], "scores": [0, 1, 2],
+    "nums": [0, 1, 2, True], "words": ["", "a", "b"], "tags": [0, 1, 2, True], "labels": ["", "a", "b"], "scores": [0, 1, 2],
     "kids": [["Leaf", {}], ["Leaf", {"x": 1}]], "pairs": [["Leaf", {}], ["Leaf", {"x": 1}]],
     "units": [["Keyed", {"key": "a"}], ["Keyed", {"key": "b", "n": 1}], ["Keyed", {"key": "c"}]],
     "parts": [["Keyed", {"key": "a"}], ["Keyed", {"key": "b", "n": 1}]],
@@ -246,7 +246,7 @@ def ref_apply(kind, env, content, op, with_prep):
             if target not in c:
                 raise Expect("ValueError")
             j = c.index(target)
-            old = target
+            old = c[j]  # the STORED element (equal to the addressing value, not necessarily the same: True == 1)
         if m == "without":
             del c[j]
             return c
@@ -331,7 +331,8 @@ def ref_apply(kind, env, content, op, with_prep):
     if m == "without":
         c.remove(t)
         return c
-    new = prep_item(kind, args[1], env, with_prep) if m == "update" else args[1](t)
+    stored = next(x for x in c if x == t)  # the STORED element (True == 1: equal, not the same)
+    new = prep_item(kind, args[1], env, with_prep) if m == "update" else args[1](stored)
     check_item(new)
     c.remove(t)
     c.add(new)
